@@ -14,11 +14,20 @@
    `true` store(false) + return Interrupted -- the load/store pair is one step,
    see NOTE 1), print a token to a stream ([WAPrint]), or finish ([WAFinish]).
 
-   `fx : bool` selects the code: [false] = nrepl.rs as found (close only sets the
-   interrupt flag, the worker unconditionally clears it after every dequeue);
-   [true] = nrepl.rs with fix-1 (a per-session `closed` flag, set before the
-   interrupt flag by close; the worker re-raises the interrupt flag after its
-   reset when `closed` is set).
+   `pv : ver` selects the code:
+   [VAsFound] = nrepl.rs as found (close only sets the interrupt flag, the worker
+                unconditionally clears it after every dequeue);
+   [VFix1]    = with fix-1 (a per-session `closed` flag, set before the interrupt
+                flag by close; the worker re-raises the interrupt flag after its
+                reset when `closed` is set);
+   [VFix2]    = the current code, fix-1 + fix-2: every session has a counter
+                `pending` (requests enqueued and not finished) under a mutex; the
+                reader increments it in the critical section that sends the
+                request; `interrupt` (and the SIGINT broadcast) raise the flag only
+                if pending > 0, in one critical section; the worker no longer clears
+                the flag on dequeue; when it has sent the last response of a request
+                it decrements pending and, if it is now 0, clears the flag (one
+                critical section, [WADone]).  A critical section is ONE step (A-MUTEX).
 
    ASSUMPTIONS built into the model (named in Properties/C30.v, C31.v):
    A-FIFO    std::sync::mpsc channels are FIFO and linearizable; a send that
@@ -41,6 +50,10 @@
            it observes the drop).  All theorems hold for the superset. *)
 From Coq Require Import List Arith Bool.
 Import ListNotations.
+
+Inductive ver := VAsFound | VFix1 | VFix2.
+Definition has_closed (pv : ver) : bool := match pv with VAsFound => false | _ => true end.
+Definition counts (pv : ver) : bool := match pv with VFix2 => true | _ => false end.
 
 Definition rid := nat.   (* request id = index of the request in the reader's input *)
 Definition sid := nat.   (* session id: `garden-(k+1)` is session k *)
@@ -80,7 +93,7 @@ Inductive wpc :=
 | WExited                             (* recv() returned Err: loop left *)
 | WDequeued (r : rid) (kd : kind)     (* recv() returned the request *)
 | WResetting (r : rid) (kd : kind)    (* fix-1 only: flag cleared, `closed` load next *)
-| WReflag (r : rid) (kd : kind)       (* fix-1 only: saw closed, store(true) next *)
+| WReflag (r : rid) (kd : kind)       (* fix-1, fix-2: saw closed, store(true) next *)
 | WReady (r : rid) (kd : kind)        (* flag handled, fresh buffers made *)
 | WWarned (r : rid)                   (* diagnostics message sent *)
 | WRun (r : rid)                      (* flusher spawned, evaluator running *)
@@ -88,7 +101,8 @@ Inductive wpc :=
 | WJoin (r : rid) (res : result)      (* flusher.join() next *)
 | WDrain (r : rid) (res : result) (x : stream)                       (* final drain: take buffer x next *)
 | WDrainSend (r : rid) (res : result) (x : stream) (t : list tok)    (* send the drained text next *)
-| WSend (r : rid) (n : nat) (st : status).   (* `for r in responses`: n status-less messages, then done *)
+| WSend (r : rid) (n : nat) (st : status)    (* `for r in responses`: n status-less messages, then done *)
+| WFinishing.                         (* fix-2: all responses sent; finish_request() next *)
 
 (* flusher program counter *)
 Inductive fpc := FWait | FTake (x : stream) | FSend (x : stream) (t : list tok) | FExited.
@@ -103,23 +117,25 @@ Record session := {
   s_w : wpc;
   s_fl : option (rid * fpc);     (* flusher thread with its copy of base_msg's id *)
   s_stop : bool;                 (* flush_stop_tx dropped *)
-  s_env : list def               (* the worker's Env: definitions visible to evals *)
+  s_env : list def;              (* the worker's Env: definitions visible to evals *)
+  s_pending : nat                (* fix-2: SessionInterrupt.pending (always 0 in the older variants) *)
 }.
 
 Definition new_session : session :=
   {| s_open := true; s_closed := false; s_queue := []; s_flag := false; s_out := []; s_err := [];
-     s_w := WIdle; s_fl := None; s_stop := false; s_env := [] |}.
+     s_w := WIdle; s_fl := None; s_stop := false; s_env := []; s_pending := 0 |}.
 
-Definition set_open s v := {| s_open := v; s_closed := s_closed s; s_queue := s_queue s; s_flag := s_flag s; s_out := s_out s; s_err := s_err s; s_w := s_w s; s_fl := s_fl s; s_stop := s_stop s; s_env := s_env s |}.
-Definition set_closed s v := {| s_open := s_open s; s_closed := v; s_queue := s_queue s; s_flag := s_flag s; s_out := s_out s; s_err := s_err s; s_w := s_w s; s_fl := s_fl s; s_stop := s_stop s; s_env := s_env s |}.
-Definition set_queue s v := {| s_open := s_open s; s_closed := s_closed s; s_queue := v; s_flag := s_flag s; s_out := s_out s; s_err := s_err s; s_w := s_w s; s_fl := s_fl s; s_stop := s_stop s; s_env := s_env s |}.
-Definition set_flag s v := {| s_open := s_open s; s_closed := s_closed s; s_queue := s_queue s; s_flag := v; s_out := s_out s; s_err := s_err s; s_w := s_w s; s_fl := s_fl s; s_stop := s_stop s; s_env := s_env s |}.
-Definition set_out s v := {| s_open := s_open s; s_closed := s_closed s; s_queue := s_queue s; s_flag := s_flag s; s_out := v; s_err := s_err s; s_w := s_w s; s_fl := s_fl s; s_stop := s_stop s; s_env := s_env s |}.
-Definition set_err s v := {| s_open := s_open s; s_closed := s_closed s; s_queue := s_queue s; s_flag := s_flag s; s_out := s_out s; s_err := v; s_w := s_w s; s_fl := s_fl s; s_stop := s_stop s; s_env := s_env s |}.
-Definition set_w s v := {| s_open := s_open s; s_closed := s_closed s; s_queue := s_queue s; s_flag := s_flag s; s_out := s_out s; s_err := s_err s; s_w := v; s_fl := s_fl s; s_stop := s_stop s; s_env := s_env s |}.
-Definition set_fl s v := {| s_open := s_open s; s_closed := s_closed s; s_queue := s_queue s; s_flag := s_flag s; s_out := s_out s; s_err := s_err s; s_w := s_w s; s_fl := v; s_stop := s_stop s; s_env := s_env s |}.
-Definition set_stop s v := {| s_open := s_open s; s_closed := s_closed s; s_queue := s_queue s; s_flag := s_flag s; s_out := s_out s; s_err := s_err s; s_w := s_w s; s_fl := s_fl s; s_stop := v; s_env := s_env s |}.
-Definition set_env s v := {| s_open := s_open s; s_closed := s_closed s; s_queue := s_queue s; s_flag := s_flag s; s_out := s_out s; s_err := s_err s; s_w := s_w s; s_fl := s_fl s; s_stop := s_stop s; s_env := v |}.
+Definition set_open s v := {| s_open := v; s_closed := s_closed s; s_queue := s_queue s; s_flag := s_flag s; s_out := s_out s; s_err := s_err s; s_w := s_w s; s_fl := s_fl s; s_stop := s_stop s; s_env := s_env s; s_pending := s_pending s |}.
+Definition set_closed s v := {| s_open := s_open s; s_closed := v; s_queue := s_queue s; s_flag := s_flag s; s_out := s_out s; s_err := s_err s; s_w := s_w s; s_fl := s_fl s; s_stop := s_stop s; s_env := s_env s; s_pending := s_pending s |}.
+Definition set_queue s v := {| s_open := s_open s; s_closed := s_closed s; s_queue := v; s_flag := s_flag s; s_out := s_out s; s_err := s_err s; s_w := s_w s; s_fl := s_fl s; s_stop := s_stop s; s_env := s_env s; s_pending := s_pending s |}.
+Definition set_flag s v := {| s_open := s_open s; s_closed := s_closed s; s_queue := s_queue s; s_flag := v; s_out := s_out s; s_err := s_err s; s_w := s_w s; s_fl := s_fl s; s_stop := s_stop s; s_env := s_env s; s_pending := s_pending s |}.
+Definition set_out s v := {| s_open := s_open s; s_closed := s_closed s; s_queue := s_queue s; s_flag := s_flag s; s_out := v; s_err := s_err s; s_w := s_w s; s_fl := s_fl s; s_stop := s_stop s; s_env := s_env s; s_pending := s_pending s |}.
+Definition set_err s v := {| s_open := s_open s; s_closed := s_closed s; s_queue := s_queue s; s_flag := s_flag s; s_out := s_out s; s_err := v; s_w := s_w s; s_fl := s_fl s; s_stop := s_stop s; s_env := s_env s; s_pending := s_pending s |}.
+Definition set_w s v := {| s_open := s_open s; s_closed := s_closed s; s_queue := s_queue s; s_flag := s_flag s; s_out := s_out s; s_err := s_err s; s_w := v; s_fl := s_fl s; s_stop := s_stop s; s_env := s_env s; s_pending := s_pending s |}.
+Definition set_fl s v := {| s_open := s_open s; s_closed := s_closed s; s_queue := s_queue s; s_flag := s_flag s; s_out := s_out s; s_err := s_err s; s_w := s_w s; s_fl := v; s_stop := s_stop s; s_env := s_env s; s_pending := s_pending s |}.
+Definition set_stop s v := {| s_open := s_open s; s_closed := s_closed s; s_queue := s_queue s; s_flag := s_flag s; s_out := s_out s; s_err := s_err s; s_w := s_w s; s_fl := s_fl s; s_stop := v; s_env := s_env s; s_pending := s_pending s |}.
+Definition set_env s v := {| s_open := s_open s; s_closed := s_closed s; s_queue := s_queue s; s_flag := s_flag s; s_out := s_out s; s_err := s_err s; s_w := s_w s; s_fl := s_fl s; s_stop := s_stop s; s_env := v; s_pending := s_pending s |}.
+Definition set_pending s v := {| s_open := s_open s; s_closed := s_closed s; s_queue := s_queue s; s_flag := s_flag s; s_out := s_out s; s_err := s_err s; s_w := s_w s; s_fl := s_fl s; s_stop := s_stop s; s_env := s_env s; s_pending := v |}.
 
 Definition buf (s : session) (x : stream) : list tok := match x with SOut => s_out s | SErr => s_err s end.
 Definition set_buf (s : session) (x : stream) (v : list tok) : session :=
@@ -144,9 +160,10 @@ Inductive begin_kind := BSimple | BParseErr | BWarn | BSpawn.
 
 Inductive wact :=
 | WADequeue | WAExit
-| WAReset           (* interrupted.store(false); fresh stdout/stderr buffers *)
-| WALoadClosed      (* fix-1: closed.load() *)
-| WAReflag          (* fix-1: interrupted.store(true) *)
+| WAReset           (* as found, fix-1: interrupted.store(false); fresh stdout/stderr buffers *)
+| WALoadClosed      (* fix-1, fix-2: closed.load() *)
+| WAReflag          (* fix-1, fix-2: interrupted.store(true) *)
+| WADone            (* fix-2: finish_request(): lock; pending -= 1; if pending == 0 { flag.store(false) } *)
 | WABegin (b : begin_kind)
 | WADefine (d : def)                (* load_toplevel_items_with_stubs adds a definition *)
 | WASees (d : def)                  (* the eval resolves a name to definition d *)
@@ -160,7 +177,7 @@ Inductive wact :=
 
 Definition memb (d : def) (l : list def) : bool := existsb (Nat.eqb d) l.
 
-Definition worker_step (fx : bool) (k : sid) (s : session) (a : wact) : option (session * eff) :=
+Definition worker_step (pv : ver) (k : sid) (s : session) (a : wact) : option (session * eff) :=
   match a, s_w s with
   | WADequeue, WIdle =>
       match s_queue s with
@@ -173,7 +190,12 @@ Definition worker_step (fx : bool) (k : sid) (s : session) (a : wact) : option (
       | _ => None
       end
   | WAReset, WDequeued r kd =>
-      Some (set_w (set_err (set_out (set_flag s false) []) []) (if fx then WResetting r kd else WReady r kd), ENone)
+      if counts pv then None else
+      Some (set_w (set_err (set_out (set_flag s false) []) []) (if has_closed pv then WResetting r kd else WReady r kd), ENone)
+  | WALoadClosed, WDequeued r kd =>
+      if counts pv then
+        Some (set_w (set_err (set_out s []) []) (if s_closed s then WReflag r kd else WReady r kd), ENone)
+      else None
   | WALoadClosed, WResetting r kd =>
       Some (set_w s (if s_closed s then WReflag r kd else WReady r kd), ENone)
   | WAReflag, WReflag r kd => Some (set_w (set_flag s true) (WReady r kd), ENone)
@@ -202,7 +224,12 @@ Definition worker_step (fx : bool) (k : sid) (s : session) (a : wact) : option (
       end
   | WASend, WDrainSend r res x t => Some (set_w s (after_drain r res x), ESend (MOut k r x t))
   | WASend, WSend r (S n) st => Some (set_w s (WSend r n st), ESend (MText k r))
-  | WASend, WSend r O st => Some (set_w s WIdle, ESend (MDone r st))
+  | WASend, WSend r O st => Some (set_w s (if counts pv then WFinishing else WIdle), ESend (MDone r st))
+  | WADone, WFinishing =>
+      match pred (s_pending s) with
+      | O => Some (set_w (set_pending (set_flag s false) 0) WIdle, ENone)
+      | S p => Some (set_w (set_pending s (S p)) WIdle, ENone)
+      end
   | _, _ => None
   end.
 
@@ -275,7 +302,8 @@ Definition open_sess (st : state) (k : sid) : option session :=
 Inductive ract :=
 | RAEnq        (* dispatch_to_session: request_tx.send *)
 | RAUnknown    (* session not in the table *)
-| RAFlag       (* interrupted.store(true): interrupt op, or close_session *)
+| RAFlag       (* interrupted.store(true): interrupt op (fix-2: only with pending > 0), or close_session *)
+| RAIgnore     (* fix-2: interrupt op finds pending == 0: nothing stored *)
 | RAClosed     (* fix-1: closed.store(true) in close_session *)
 | RADrop       (* sessions.remove(id): drops request_tx *)
 | RANew        (* new_session: spawn the worker, insert into the table *)
@@ -285,11 +313,13 @@ Inductive ract :=
 Definition op_session (o : op) : option sid :=
   match o with OSess k _ => Some k | OInterrupt k => Some k | OClose k => Some k | _ => None end.
 
-Definition reader_step (fx : bool) (st : state) (a : ract) : option state :=
+Definition reader_step (pv : ver) (st : state) (a : ract) : option state :=
   match a, st_rd st with
   | RAEnq, RGot r (OSess k kd) =>
       match open_sess st k with
-      | Some s => Some (rd_set st RIdle (upd k (set_queue s (s_queue s ++ [(r, kd)])) (st_sess st)))
+      | Some s => Some (rd_set st RIdle
+                    (upd k (set_pending (set_queue s (s_queue s ++ [(r, kd)]))
+                                        (if counts pv then S (s_pending s) else s_pending s)) (st_sess st)))
       | None => None
       end
   | RAUnknown, RGot r o =>
@@ -302,17 +332,26 @@ Definition reader_step (fx : bool) (st : state) (a : ract) : option state :=
       end
   | RAFlag, RGot r (OInterrupt k) =>
       match open_sess st k with
-      | Some s => Some (rd_set st (RSend r StDone) (upd k (set_flag s true) (st_sess st)))
+      | Some s =>
+          if counts pv && Nat.eqb (s_pending s) 0 then None
+          else Some (rd_set st (RSend r StDone) (upd k (set_flag s true) (st_sess st)))
+      | None => None
+      end
+  | RAIgnore, RGot r (OInterrupt k) =>
+      match open_sess st k with
+      | Some s =>
+          if counts pv && Nat.eqb (s_pending s) 0 then Some (rd_set st (RSend r StDone) (st_sess st))
+          else None
       | None => None
       end
   | RAFlag, RGot r (OClose k) =>
-      if fx then None else
+      if has_closed pv then None else
       match open_sess st k with
       | Some s => Some (rd_set st (RCloseDrop r k) (upd k (set_flag s true) (st_sess st)))
       | None => None
       end
   | RAClosed, RGot r (OClose k) =>
-      if fx then
+      if has_closed pv then
         match open_sess st k with
         | Some s => Some (rd_set st (RCloseFlag r k) (upd k (set_closed s true) (st_sess st)))
         | None => None
@@ -343,9 +382,9 @@ Inductive label :=
 | LWorker (k : sid) (a : wact)
 | LFlusher (k : sid) (a : fact)
 | LWriter                         (* writer: rx.recv() + write_message + flush *)
-| LSigint (k : sid).              (* sigint_watchdog: arc.store(true) for session k *)
+| LSigint (k : sid).              (* sigint_watchdog: interrupt() of session k *)
 
-Definition step (fx : bool) (st : state) (l : label) : option state :=
+Definition step (pv : ver) (st : state) (l : label) : option state :=
   match l with
   | LRecv o =>
       match st_rd st with
@@ -354,10 +393,10 @@ Definition step (fx : bool) (st : state) (l : label) : option state :=
                          st_sent := st_sent st; st_printed := st_printed st; st_defs := st_defs st |}
       | _ => None
       end
-  | LReader a => reader_step fx st a
+  | LReader a => reader_step pv st a
   | LWorker k a =>
       match nth_error (st_sess st) k with
-      | Some s => match worker_step fx k s a with
+      | Some s => match worker_step pv k s a with
                   | Some (s', e) => Some (apply_eff st k s' e)
                   | None => None
                   end
@@ -380,29 +419,31 @@ Definition step (fx : bool) (st : state) (l : label) : option state :=
       end
   | LSigint k =>
       match nth_error (st_sess st) k with
-      | Some s => Some (rd_set st (st_rd st) (upd k (set_flag s true) (st_sess st)))
+      | Some s =>
+          if counts pv && Nat.eqb (s_pending s) 0 then Some st      (* fix-2: idle session: nothing stored *)
+          else Some (rd_set st (st_rd st) (upd k (set_flag s true) (st_sess st)))
       | None => None
       end
   end.
 
-Definition enabled (fx : bool) (st : state) (l : label) : bool :=
-  match step fx st l with Some _ => true | None => false end.
+Definition enabled (pv : ver) (st : state) (l : label) : bool :=
+  match step pv st l with Some _ => true | None => false end.
 
 (* replay a trace; None = some label was not enabled *)
-Fixpoint exec (fx : bool) (st : state) (tr : list label) : option state :=
+Fixpoint exec (pv : ver) (st : state) (tr : list label) : option state :=
   match tr with
   | [] => Some st
-  | l :: tr' => match step fx st l with Some st' => exec fx st' tr' | None => None end
+  | l :: tr' => match step pv st l with Some st' => exec pv st' tr' | None => None end
   end.
 
 (* replay with the index of the first rejected label *)
-Fixpoint exec_at (fx : bool) (st : state) (tr : list label) (i : nat) : state * option nat :=
+Fixpoint exec_at (pv : ver) (st : state) (tr : list label) (i : nat) : state * option nat :=
   match tr with
   | [] => (st, None)
-  | l :: tr' => match step fx st l with Some st' => exec_at fx st' tr' (S i) | None => (st, Some i) end
+  | l :: tr' => match step pv st l with Some st' => exec_at pv st' tr' (S i) | None => (st, Some i) end
   end.
 
-Definition reachable (fx : bool) (st : state) : Prop := exists tr, exec fx init tr = Some st.
+Definition reachable (pv : ver) (st : state) : Prop := exists tr, exec pv init tr = Some st.
 
 (* ---- observation functions used by the theorems ---- *)
 
@@ -440,7 +481,7 @@ Fixpoint ptoks (k : sid) (r : rid) (x : stream) (l : list (sid * rid * stream * 
 (* the request a worker is holding *)
 Definition cur (pc : wpc) : option rid :=
   match pc with
-  | WIdle | WExited => None
+  | WIdle | WExited | WFinishing => None
   | WDequeued r _ | WResetting r _ | WReflag r _ | WReady r _ | WWarned r | WRun r
   | WStop r _ | WJoin r _ | WDrain r _ _ | WDrainSend r _ _ _ | WSend r _ _ => Some r
   end.
@@ -483,3 +524,9 @@ Definition flag_of (st : state) (k : sid) : option bool :=
   match nth_error (st_sess st) k with Some s => Some (s_flag s) | None => None end.
 Definition wpc_of (st : state) (k : sid) : option wpc :=
   match nth_error (st_sess st) k with Some s => Some (s_w s) | None => None end.
+
+Definition pending_of (st : state) (k : sid) : option nat :=
+  match nth_error (st_sess st) k with Some s => Some (s_pending s) | None => None end.
+
+(* the worker holds a request or still has to account for one *)
+Definition busy (pc : wpc) : nat := match pc with WIdle | WExited => 0 | _ => 1 end.
